@@ -120,7 +120,7 @@ func getPluginDir() string {
 	return filepath.Join(config.OctosqlDataDir, "plugins")
 }
 
-func (m *PluginManager) Install(ctx context.Context, name string, constraint *semver.Constraints) error {
+func (m *PluginManager) Install(ctx context.Context, name string, constraint *semver.Constraints) (err error) {
 	if strings.Count(name, "@") > 1 {
 		return fmt.Errorf("plugin name can contain only one '@' character: '%s'", name)
 	}
@@ -206,7 +206,12 @@ func (m *PluginManager) Install(ctx context.Context, name string, constraint *se
 	if err != nil {
 		return fmt.Errorf("couldn't create plugin staging directory: %w", err)
 	}
-	defer os.RemoveAll(stagingDir)
+	defer func() {
+		// After a successful installation the staging directory has been moved away and there's nothing to remove.
+		if removeErr := os.RemoveAll(stagingDir); removeErr != nil && err == nil {
+			err = fmt.Errorf("couldn't remove plugin staging directory: %w", removeErr)
+		}
+	}()
 	if err := os.Chmod(stagingDir, 0755); err != nil {
 		return fmt.Errorf("couldn't set permissions of the plugin staging directory: %w", err)
 	}
